@@ -1,0 +1,30 @@
+//go:build verif
+
+package behavior
+
+// Contracts for the text form of the mode enumerations of this package
+// (property C37: "every mode written as text is read back as the same
+// value"). Comment-only file: compiled only under the "verif" build tag,
+// contains no code. The "//@" lines are read by govc.
+//
+// For every supported (named, non-default) value v with documented name N:
+// the marshalling method writes v as exactly the bytes of N and reports no
+// error [written]; UnmarshalText, given exactly the bytes of N, reports no
+// error and stores v [readback]; it accepts nothing but supported values
+// [accepted] and leaves the destination alone when it fails [rejected]. The
+// round trip "UnmarshalText(MarshalText(v)) yields v and no error" is the
+// instance of [readback] for the bytes that [written] describes.
+
+// textis(b, s): the byte slice b spells the string s.
+//@ pred textis(b, s) = len(b) == len(s) && forall i in 0..len(s) :: b[i] == s[i]
+
+//@ func (ProbeMode).MarshalText
+//@   ensures[written] m == ProbeMode_ProbeModeProbe ==> result1 == nil && textis(result0, "probe")
+//@   ensures[written] m == ProbeMode_ProbeModeAssume ==> result1 == nil && textis(result0, "assume")
+
+//@ func (*ProbeMode).UnmarshalText
+//@   requires m != nil
+//@   ensures[readback] textis(textBytes, "probe") ==> result == nil && deref(m) == ProbeMode_ProbeModeProbe
+//@   ensures[readback] textis(textBytes, "assume") ==> result == nil && deref(m) == ProbeMode_ProbeModeAssume
+//@   ensures[accepted] result == nil ==> deref(m) == ProbeMode_ProbeModeProbe || deref(m) == ProbeMode_ProbeModeAssume
+//@   ensures[rejected] result != nil ==> deref(m) == old(deref(m))
